@@ -720,6 +720,42 @@ func c06(c *Ctx) {
 	}
 
 	// R8 Clone
+	// R11 a response channel belongs to one request
+	c.Rule("R11", "E5 ownership (fresh per request)", "the response channel a synchronous Export / ForceFlush hands to the export goroutine is made for that call (or nil): the caller can give up waiting (ctx.Done) while the goroutine still owes an answer, so a channel that is recycled carries that stale answer into a later call, which returns before its own request was served", 2)
+	if enq := c.Fn(ix, "R11", "(*bufferExporter).enqueue"); enq != nil {
+		n := 0
+		for _, s := range ix.FindCalls(func(f *FuncInfo, call *ast.CallExpr) bool { return callToDecl(info, enq)(call) }) {
+			call := s.N.(*ast.CallExpr)
+			if len(call.Args) < 3 {
+				continue
+			}
+			n++
+			arg := unparen(call.Args[2])
+			key := "sdk/log|" + ix.Outer(s.F).Name + "|response channel handed to enqueue is fresh or nil"
+			if isNilIdent(info, arg) {
+				c.OK("R11", key, ix.at(s), "nil: the answer goes to the error handler")
+				continue
+			}
+			g := ix.FG(s.F)
+			fresh, what := false, exprStr(arg)
+			if v := objOf(info, arg); v != nil {
+				if d := g.LocalDef(v); d != nil {
+					what = exprStr(d)
+					if mk, ok := unparen(d).(*ast.CallExpr); ok && builtinName(info, mk) == "make" {
+						fresh = true
+					}
+				}
+			} else if mk, ok := arg.(*ast.CallExpr); ok && builtinName(info, mk) == "make" {
+				fresh = true
+			}
+			c.Check(fresh, "R11", key, ix.at(s), "made in this call",
+				"the response channel is "+what+", not a channel made for this request: after a call that stopped waiting (context done) the export goroutine's late answer sits in a channel a later ForceFlush/Export picks up — it returns at once, before its own records were passed to the exporter")
+		}
+		if n == 0 {
+			c.Violation("R11", "sdk/log|bufferExporter.enqueue|call sites", at(ix.M, enq.Pos()), "enqueue has no caller: the analysis no longer sees the synchronous export path")
+		}
+	}
+
 	c.Rule("R10", "E3 must-pass (negative form)", "BatchProcessor.ForceFlush ends, on every path that is not excused by the stopped flag or a nil member, with the buffer exporter's own ForceFlush (the step that waits for batches already handed to the export goroutine)", 1)
 	if fn := c.Fn(ix, "R10", "(*BatchProcessor).ForceFlush"); fn != nil {
 		g := ix.FG(fn)
